@@ -46,7 +46,7 @@ def _serve(port: int, capacity: int, prefix: str) -> None:
 
 
 class Server:
-    def __init__(self, port: int, capacity: int, prefix: str):
+    def __init__(self, port: int, capacity: int, prefix: str, attempts: int = 6):
         import multiprocessing as mp
 
         from cascade.shm import api
@@ -55,7 +55,7 @@ class Server:
         self.capacity = capacity
         self.proc = None
         last = None
-        for attempt in range(6):
+        for attempt in range(attempts):
             p = port + attempt
             proc = mp.get_context("fork").Process(target=_serve, args=(p, capacity, prefix), daemon=True)
             proc.start()
@@ -70,7 +70,7 @@ class Server:
             except Exception:
                 pass
             proc.join(5)
-        raise HarnessError(f"real shm server did not come up on ports {port}..{port + 5} (exit {last})")
+        raise HarnessError(f"real shm server did not come up on ports {port}..{port + attempts - 1} (exit {last})")
 
     @staticmethod
     def _ensure(proc) -> bool:
@@ -79,7 +79,7 @@ class Server:
         from cascade.shm import api
 
         t0 = time.time()
-        while time.time() - t0 < 10 and proc.is_alive():
+        while time.time() - t0 < 45 and proc.is_alive():
             s = socket.socket(socket.AF_INET, socket.SOCK_DGRAM)
             try:
                 s.settimeout(0.3)
@@ -87,7 +87,10 @@ class Server:
                 s.send(api.ser(api.StatusInquiry()))
                 r = api.deser(s.recv(1024))
                 if isinstance(r, api.OkResponse):
-                    return True
+                    # somebody answers on that port: make sure it is OUR child (a child whose bind failed because another
+                    # process owns the port exits within moments)
+                    time.sleep(0.3)
+                    return proc.is_alive()
             except OSError:
                 time.sleep(0.05)
             finally:
